@@ -791,4 +791,43 @@ theorem scanLast_none (active : Int) (pred : Rec → Bool) (l : List Rec) :
     · have := hx.1; omega
     · exact hx.2
 
+/-! ### get_records -/
+
+theorem getRecordsGo_filter (name : String) (p : Int) (l : List Rec) : ∀ cur,
+    (getRecordsGo name p l cur).Sublist l ∧ ∀ r ∈ getRecordsGo name p l cur, r.name = name := by
+  induction l with
+  | nil => intro cur; simp [getRecordsGo]
+  | cons r rs ih =>
+    intro cur
+    have key := ih (if r.name == "PROBLEM" then cur + 1 else cur)
+    simp only [getRecordsGo]
+    generalize (if (r.name == "PROBLEM") = true then cur + 1 else cur) = c at key ⊢
+    obtain ⟨h1, h2⟩ := key
+    by_cases h : (c == p && r.name == name) = true
+    · simp only [h, ↓reduceIte]
+      simp only [Bool.and_eq_true, beq_iff_eq] at h
+      refine ⟨List.Sublist.cons_cons _ h1, ?_⟩
+      intro x hx
+      rcases List.mem_cons.mp hx with rfl | hx
+      · exact h.2
+      · exact h2 x hx
+    · simp only [h, Bool.false_eq_true, ↓reduceIte]
+      exact ⟨List.Sublist.cons _ h1, h2⟩
+
+/-- Records standing before the first `$PROBLEM` are invisible to `get_records` for every
+    problem number ≥ 0 (in particular for the default 0). -/
+theorem getRecordsGo_pre (name : String) (p : Int) (hp : 0 ≤ p) (a : List Rec)
+    (ha : ∀ r ∈ a, (r.name == "PROBLEM") = false) : ∀ b,
+    getRecordsGo name p (a ++ b) (-1) = getRecordsGo name p b (-1) := by
+  induction a with
+  | nil => intro b; rfl
+  | cons r rs ih =>
+    intro b
+    have hr := ha r (by simp)
+    simp only [List.cons_append, getRecordsGo, hr, Bool.false_eq_true, ↓reduceIte]
+    have hne : ((-1 : Int) == p) = false := by
+      simp only [beq_eq_false_iff_ne, ne_eq]; omega
+    simp only [hne, Bool.false_and, Bool.false_eq_true, ↓reduceIte]
+    exact ih (fun x hx => ha x (List.mem_cons_of_mem _ hx)) b
+
 end Pharmpy.C03
